@@ -519,6 +519,69 @@ func ZZ_C03_AfterLoad() {
 	vfAssert("after-load:live-entry-restored", vfImplies(U+d < E, hit || W >= E))
 }
 
+// ZZ_C04_AfterLoad: persistence x timer wheel. A cache that has been up for UP nanoseconds (a configuration constant,
+// so that every wheel level is visited by some run) holds an entry with a TTL; it is saved and loaded into a new
+// cache, which adopts the saved clock origin while its own wheel time starts near zero. The maintenance ticks of the
+// new cache (one per second) then have to collect the entry on time: never before its deadline, and at the latest
+// by the first tick that comes a wheel tick (2^30 ns) plus a maintenance period after it. TTL and downtime symbolic.
+func ZZ_C04_AfterLoad() {
+	vfSetHashMode(1)
+	StripedBufferSize = 1
+	origin := vfClockNow()
+	src := NewStore[uint64, uint64](&StoreOptions[uint64, uint64]{MaxSize: 10})
+	vfQuiesce()
+	U := int64(vfConfig("UPS", 70)) * 1000000000 // uptime of the saved cache in seconds
+	ttl := vfI64("ttl")
+	d := vfI64("downtime")
+	vfAssume(ttl >= 1)
+	vfAssume(ttl <= 1<<31)
+	vfAssume(d >= 0)
+	vfAssume(d <= 1<<30)
+	vfClockSet(origin + U)
+	ok := src.Set(1, 7, 1, time.Duration(ttl))
+	vfAssert("set-accepted", ok)
+	src.Set(2, 8, 1, 0) // a bystander without deadline
+	src.Wait()
+	w := vfGhostStream()
+	err := src.Persist(1, w)
+	vfAssert("save-succeeds", err == nil)
+	E := U + ttl
+	vfClockSet(origin + U + d)
+	var notes []zzNote
+	dst := NewStore[uint64, uint64](&StoreOptions[uint64, uint64]{MaxSize: 10, Listener: func(k, v uint64, r RemoveReason) {
+		notes = append(notes, zzNote{k, v, r})
+	}})
+	vfQuiesce()
+	err = dst.Recover(1, vfStreamReader(w))
+	vfAssert("load-succeeds", err == nil)
+	const period = int64(1000000000)
+	T := U + d
+	for i := 0; i < 5; i++ {
+		T += period
+		vfClockSet(origin + T)
+		vfFireTickers()
+		vfQuiesce()
+		dst.Wait()
+		_, present := dst.shards[zzIndex(dst, 1)].hashmap[1]
+		vfAssert("after-load:not-collected-before-deadline", vfImplies(!present, E <= T))
+		vfAssert("after-load:collected-within-a-tick-and-a-period", vfImplies(T >= E+(1<<30)+period, !present))
+	}
+	vfReach("ticks-done")
+	_, present := dst.shards[zzIndex(dst, 1)].hashmap[1]
+	vfAssert("after-load:collected-in-the-end", !present)
+	n := 0
+	for _, x := range notes {
+		if x.key == 1 {
+			n++
+			vfAssert("after-load:reported-expired", x.reason == EXPIRED && x.val == 7)
+		}
+		vfAssert("after-load:bystander-stays", x.key != 2)
+	}
+	vfAssert("after-load:reported-at-most-once", n <= 1)
+	vfAssert("after-load:restored-entry-reported", vfImplies(U+d < E, n == 1))
+	zzOnWheel(dst, "after-load")
+}
+
 // ZZ_C10_HybridGetAfterClose: once Close has returned, a hybrid Get misses also for a key whose copy lives in the
 // secondary tier (demoted before the Close), and a hybrid loading Get reports ErrCacheClosed.
 func ZZ_C10_HybridGetAfterClose() {
